@@ -112,6 +112,10 @@ def class_source(case):
             if k[:2] in ("a_", "e_") and t.get("style", 0) == 1:
                 lit = "(" + lit[1:-1] + ",)"  # a tuple default
             body[lvl].append(f"    {t['a']} = tunable({lit}{kw})")
+    if case.get("falsy_owner") == "len":
+        body[0].append("    def __len__(self):\n        return 0  # e.g. a queue-like component that is empty right now")
+    elif case.get("falsy_owner") == "bool":
+        body[0].append("    def __bool__(self):\n        return False")
     out.extend(body[0] or ["    pass"])
     out.append("class Derived(Base):")
     for t in case.get("redecl", []):
@@ -141,7 +145,7 @@ def same(kind, got, want):
     if b == "rot":
         return hasattr(got, "radians") and got.radians() == want
     if b == "bytes":
-        return bytes(got) == bytes.fromhex(want)
+        return isinstance(got, (bytes, bytearray, memoryview)) and bytes(got) == bytes.fromhex(want)
     if b == "bool":
         return got == want and isinstance(got, (bool, int))
     if b == "str":
@@ -208,6 +212,8 @@ def decode(code):
         tun.append(t)
     owner = OWNERS[owner_c]
     case = {"tunables": tun, "owner": owner, "names": ["robot"] if owner == "robot" else NAMES[names_c], "derived": derived and owner != "robot"}
+    if names_c % 3 == 1:
+        case["falsy_owner"] = ["len", "bool"][owner_c % 2]  # an owner object that is falsy is still the owner
     case["pre"] = []
     # the derived class may declare a tunable of the base class again (other default, other writeDefault):
     # the derived instance then follows the re-declaration, the base instance the original
